@@ -559,8 +559,11 @@ pub struct C11Case {
     pub extra_threads: u8,
     /// 0 user pool, 1 default pool, 2 inside a batch, 3 async dispatcher
     pub mode: u8,
-    /// extra systems chained behind the first one of some groups (positions >= 1 do not rendezvous)
+    /// number of groups that get a second, chained member (positions >= 1 do not rendezvous)
     pub tail: u8,
+    /// add a later stage with a single group
+    #[serde(default)]
+    pub join: bool,
 }
 
 pub struct C11;
@@ -568,22 +571,35 @@ pub struct C11;
 fn c11_plan(case: &C11Case) -> Plan {
     use crate::plan::{Ctl, Op};
     let w = case.width.clamp(2, 16) as usize;
+    // group 0 is the long one; the others are short so that chained members join their group
     let mut ops: Vec<Op> = (0..w)
         .map(|i| Op::Sys {
             name: format!("w{}", i),
             deps: vec![],
             reads: vec![],
             writes: vec![],
-            rt: 3,
+            rt: if i == 0 { 5 } else { 1 },
             kind: Kind::Dyn,
             extra_deps: vec![],
         })
         .collect();
-    // a second stage of the same width: the rendezvous must be met in every stage
-    for i in 0..(case.tail as usize).min(w) {
+    // `tail` groups get a second member (same stage, more systems than groups)
+    for i in 1..=(case.tail as usize).min(w - 1) {
         ops.push(Op::Sys {
             name: format!("t{}", i),
             deps: vec![i],
+            reads: vec![],
+            writes: vec![],
+            rt: 1,
+            kind: Kind::Dyn,
+            extra_deps: vec![],
+        });
+    }
+    if case.join {
+        // a later single-group stage
+        ops.push(Op::Sys {
+            name: "join".into(),
+            deps: vec![0],
             reads: vec![],
             writes: vec![],
             rt: 3,
@@ -606,6 +622,8 @@ fn c11_plan(case: &C11Case) -> Plan {
     }
 }
 
+static C11_SEEN_MISS: AtomicBool = AtomicBool::new(false);
+
 impl Prop for C11 {
     type Case = C11Case;
     fn name(&self) -> &'static str {
@@ -618,14 +636,15 @@ impl Prop for C11 {
         "stage width 2..16 x pool size = width + 0..3 (capped at 16) x {user pool via with_pool, default pool, stage inside a batch dispatched twice, async dispatcher} x 3 repeated dispatches; oracle: the first system of every group of the widest stage blocks inside run until all of them have arrived; the dispatch must complete with every rendezvous met; a missed rendezvous is retried with 2 s, 5 s, 15 s time-outs and only three misses in a row are a violation; non-trivial = every case (width >= 2); distinct = case hash"
     }
     fn stream_len(&self) -> usize {
-        8
+        24
     }
     fn gen(&self, src: &mut Src) -> C11Case {
         C11Case {
             width: 2 + src.pick(15) as u8,
             extra_threads: src.pick(4) as u8,
             mode: src.pick(4) as u8,
-            tail: src.pick(5) as u8,
+            tail: src.pick(6) as u8,
+            join: src.chance(8, 16),
         }
     }
     fn check(&self, case: &C11Case, lane: usize, st: &mut Stats) -> Result<(), Fail> {
@@ -634,8 +653,42 @@ impl Prop for C11 {
         let plan = c11_plan(case);
         st.class(&format!("mode_{}", case.mode));
         st.class(&format!("width_{}", w));
+        // the rendezvous members must be the first systems of the groups of one stage: check that
+        // on the real layout of the (un-batched) plan; otherwise the case says nothing
+        {
+            let flat_case = C11Case {
+                mode: 0,
+                ..case.clone()
+            };
+            let twin = build_plan(&c11_plan(&flat_case), pool(lane, 1), &BuildOpts::default())
+                .map_err(|e| Fail::keyed("build-or-identify", e))?;
+            let l = &twin.layouts.by_bid[&0];
+            let ok = !l.stages.is_empty()
+                && l.stages[0].len() == w
+                && (0..w).all(|i| l.stages[0].iter().any(|g| g[0] == i));
+            if !ok {
+                st.class("layout_not_as_intended_skipped");
+                return Ok(());
+            }
+            let systems_in_stage: usize = l.stages[0].iter().map(|g| g.len()).sum();
+            if systems_in_stage > w {
+                st.class("stage_with_more_systems_than_groups");
+            }
+            if systems_in_stage > threads {
+                st.class("stage_with_more_systems_than_pool_threads");
+            }
+            if l.stages.len() > 1 {
+                st.class("with_later_single_group_stage");
+            }
+        }
         let mut last_err = None;
-        for (attempt, timeout_ms) in [2000u64, 5000, 15000].iter().enumerate() {
+        // once a miss was confirmed, shrinking and later cases use a single short attempt
+        let schedule: &[u64] = if C11_SEEN_MISS.load(SeqCst) {
+            &[1500]
+        } else {
+            &[2000, 5000, 15000]
+        };
+        for (attempt, timeout_ms) in schedule.iter().enumerate() {
             match c11_attempt(case, &plan, lane, threads, *timeout_ms) {
                 Ok(met) => {
                     st.class_n("rendezvous_met", met as u64);
@@ -648,7 +701,11 @@ impl Prop for C11 {
                 Err(e) => last_err = Some(e),
             }
         }
+        C11_SEEN_MISS.store(true, SeqCst);
         Err(last_err.unwrap())
+    }
+    fn max_shrink_iters(&self) -> u32 {
+        16
     }
 }
 
@@ -682,6 +739,7 @@ fn c11_attempt(
     *ctx.rdv.lock().unwrap() = Some(rdv.clone());
     ctx.set_phase(PHASE_RUN);
     let dispatches = 3usize;
+    let _ = &flat;
     let inner_factor = if case.mode == 2 { 2 } else { 1 };
     let r = catch_unwind(AssertUnwindSafe(|| {
         if case.mode == 3 {
